@@ -642,7 +642,8 @@ def runtime_single_writer_stage(ctx):
     WHOLE runtime (acquire.c + source/filter/sink + channel.c compiled from the working tree against the deterministic scheduler and the
     mock driver of fam/pipe): in every run -- plain, aborted, with a monitor, with frame averaging, and with averaging switched off / on
     by acquire_configure while the acquisition is running (the source then changes queues under the await_filter_reset handshake) --
-    no queue ever has two threads holding a write mapping at once (harness: V ... two-writers)."""
+    no queue ever has two threads holding a write mapping at once (harness: V ... two-writers), and no region a reader has mapped
+    changes before that reader unmaps it (the harness hashes every mapped region at map and at unmap: V ... region-changed-while-mapped)."""
     import sys as _sys
     pdir = os.path.join(vlib.VERIF, "fam", "pipe")
     if pdir not in _sys.path:
@@ -670,6 +671,13 @@ def runtime_single_writer_stage(ctx):
         ctx.count("runtime:write mappings checked", nw)
         if meta["kind"] == "avgswitch" and any(l.startswith("W ") and " sink.in wmap ok" in l for l in lines) and any(" filter.in wmap ok" in l or " filt.in wmap ok" in l for l in lines):
             nsw += 1
+        for l in lines:
+            if l.startswith("V s") and "region-changed-while-mapped" in l:
+                ctx.violation("[runtime] a region a reader (sink thread, filter thread or monitoring client) had mapped was modified before the reader "
+                              "unmapped it: " + l[:200],
+                              {"program": prog, "log_line": l, "how": "python3 fam/pipe/tryprog.py <this file> .build/%s/h_pipe_c02" % ctx.prop},
+                              key="runtime-region-changed-while-mapped")
+                break
         for l in lines:
             if l.startswith("V s") and "two-writers" in l:
                 ctx.violation("[runtime] two threads hold a write mapping of the same queue at once (the channel has one write cursor: both are handed "
